@@ -316,8 +316,15 @@ def build_harness(ctx, name, extra=None, which="main"):
 
 
 def build_harnesses(ctx, name):
+    # the overlay files are written one after the other (vlib numbers them), the builds run in parallel
+    ovs = {w: ctx.harness_overlay(HARNESSES[w][0], HARNESSES[w][1]) for w in HARNESSES}
+
+    def build(w):
+        binp = os.path.join(ctx.sub("bin"), "race-%s-%s.test" % (w, name))
+        ctx.go_build_test(HARNESSES[w][2], ovs[w], binp, tags=None, race=True, timeout=1500)
+        return binp
     with concurrent.futures.ThreadPoolExecutor(max_workers=3) as ex:
-        futs = {w: ex.submit(build_harness, ctx, name, None, w) for w in HARNESSES}
+        futs = {w: ex.submit(build, w) for w in HARNESSES}
         return {w: f.result() for w, f in futs.items()}
 
 
